@@ -107,7 +107,10 @@ impl OutcomeTestGenerator for Outcome {
                         output.push_str(" (no-eol)\n")
                     }
                     generated.push_str(&output);
-                    generated.push_str(&formatln!("[{}]", *actual));
+                    // exit code 0 is the default and not written (see also above)
+                    if *actual != 0 {
+                        generated.push_str(&formatln!("[{}]", *actual));
+                    }
                     Ok(generated)
                 }
                 TestCaseError::InternalError(err) => {
